@@ -229,21 +229,10 @@ pub fn closure_narrow<const B: usize>(nd: &mut Nd) {
 }
 
 /// decoder-side producers: whatever a parser / digit decoder / slice decoder accepts is canonical (no value oracle here;
-/// the values are decided in C07/C08/C09).  Digit strings of symbolic length 0..=3 in a base chosen from
-/// {3, 10, 1000, 2^32}, ASCII strings of symbolic length 0..=3 in radix 10 or 36, byte slices of symbolic length 0..=BYTES+1.
-pub fn closure_decoders<const B: usize, const L: usize, const NB1: usize>(nd: &mut Nd) {
-    let d = [nd.u64(), nd.u64(), nd.u64()];
-    let n = nd.upto(3);
-    let base: u64 = match nd.u8() & 3 {
-        0 => 3,
-        1 => 10,
-        2 => 1000,
-        _ => 1 << 32,
-    };
-    let s = [nd.u8() & 0x7f, nd.u8() & 0x7f, nd.u8() & 0x7f];
-    let radix: u64 = if nd.bool() { 10 } else { 36 };
-    let bytes: [u8; NB1] = nd.bytes();
-    let blen = nd.upto(NB1);
+/// the values are decided in C07/C08/C09).  W = 0: u64 digit strings of symbolic length 0..=3 in a base chosen from
+/// {3, 10, 1000, 2^32}, little and big endian; W = 1: ASCII strings of symbolic length 0..=3 in radix 10 or 36;
+/// W = 2: byte slices of symbolic length 0..=BYTES+1 and two-limb slices.
+pub fn closure_decoders<const B: usize, const L: usize, const NB1: usize, const W: usize>(nd: &mut Nd) {
     macro_rules! canon {
         ($label:literal, $e:expr) => {{
             let r: Option<Uint<B, L>> = $e;
@@ -252,14 +241,32 @@ pub fn closure_decoders<const B: usize, const L: usize, const NB1: usize>(nd: &m
             }
         }};
     }
-    cov!(nd, "accepts-digits", n == 3 && Uint::<B, L>::from_base_be(base, d[..n].iter().copied()).is_ok());
-    cov!(nd, "accepts-bytes", blen == NB1 - 1 && Uint::<B, L>::try_from_be_slice(&bytes[..blen]).is_some());
-    canon!("C04.closure.from_base_be", Uint::<B, L>::from_base_be(base, d[..n].iter().copied()).ok());
-    canon!("C04.closure.from_base_le", Uint::<B, L>::from_base_le(base, d[..n].iter().copied()).ok());
-    if let Ok(txt) = core::str::from_utf8(&s[..n]) {
+    if W == 0 {
+        let d = [nd.u64(), nd.u64(), nd.u64()];
+        let n = nd.upto(3);
+        let base: u64 = match nd.u8() & 3 {
+            0 => 3,
+            1 => 10,
+            2 => 1000,
+            _ => 1 << 32,
+        };
+        cov!(nd, "accepts", n == 3 && Uint::<B, L>::from_base_be(base, d[..n].iter().copied()).is_ok());
+        canon!("C04.closure.from_base_be", Uint::<B, L>::from_base_be(base, d[..n].iter().copied()).ok());
+        canon!("C04.closure.from_base_le", Uint::<B, L>::from_base_le(base, d[..n].iter().copied()).ok());
+        canon!("C04.closure.checked_from_limbs_slice", Uint::<B, L>::checked_from_limbs_slice(&d[..2]));
+    } else if W == 1 {
+        let s = [nd.u8() & 0x7f, nd.u8() & 0x7f, nd.u8() & 0x7f];
+        let n = nd.upto(3);
+        let radix: u64 = if nd.bool() { 10 } else { 36 };
+        // ASCII by construction (every byte < 0x80): no UTF-8 validation loop in the harness
+        let txt = unsafe { core::str::from_utf8_unchecked(&s[..n]) };
+        cov!(nd, "accepts", n == 3 && Uint::<B, L>::from_str_radix(txt, radix).is_ok());
         canon!("C04.closure.from_str_radix", Uint::<B, L>::from_str_radix(txt, radix).ok());
+    } else {
+        let bytes: [u8; NB1] = nd.bytes();
+        let blen = nd.upto(NB1);
+        cov!(nd, "accepts", blen == NB1 - 1 && Uint::<B, L>::try_from_be_slice(&bytes[..blen]).is_some());
+        canon!("C04.closure.try_from_be_slice", Uint::<B, L>::try_from_be_slice(&bytes[..blen]));
+        canon!("C04.closure.try_from_le_slice", Uint::<B, L>::try_from_le_slice(&bytes[..blen]));
     }
-    canon!("C04.closure.try_from_be_slice", Uint::<B, L>::try_from_be_slice(&bytes[..blen]));
-    canon!("C04.closure.try_from_le_slice", Uint::<B, L>::try_from_le_slice(&bytes[..blen]));
-    canon!("C04.closure.checked_from_limbs_slice", Uint::<B, L>::checked_from_limbs_slice(&d[..2]));
 }
